@@ -9,6 +9,7 @@
 package c09
 
 import (
+	"runtime"
 	"encoding/json"
 	"fmt"
 	"io"
@@ -286,6 +287,8 @@ func runReal(c *core.Ctx, B int) {
 		}
 	}
 	runFar(c, B)
+	runStaged(c, B)
+	runManyBlocks(c, B)
 }
 
 // runFar: fractional and fine resolutions, and blocks far from the origin (the block key and the
@@ -384,6 +387,8 @@ func runScaled(c *core.Ctx, B int) {
 			}
 		}
 	}
+	runStaged(c, B)
+	runManyBlocks(c, B)
 	c.Bound(bname(B, "shapes"), sn)
 	c.Bound(bname(B, "centre_offsets_lattice_units_per_axis"), offs)
 	c.Bound(bname(B, "cubes_per_unit"), cpus)
@@ -409,6 +414,110 @@ func runScaled(c *core.Ctx, B int) {
 	}
 }
 
+// runManyBlocks: long shapes that cross several storage blocks, marched with March and with
+// MarchParallel on a machine limited to fewer processors than the canvas has blocks.
+func runManyBlocks(c *core.Ctx, B int) {
+	type long struct {
+		name  string
+		cpu   float64
+		parts []Part
+	}
+	var ls []long
+	if B >= 50 {
+		ls = []long{
+			{"capsule through 3 blocks", 10, []Part{{Kind: "capsule", C: [3]float64{-5, 5, 5}, R: 1, E: [3]float64{20, 0, 0}}}},
+			{"capsule through 3 blocks, skew", 10, []Part{{Kind: "capsule", C: [3]float64{-5, 5.5, 4.5}, R: 1, E: [3]float64{20, 3, 6}}}},
+		}
+	} else {
+		ls = []long{
+			{"capsule through 4 blocks in x", 1, []Part{{Kind: "capsule", C: [3]float64{2.5, 2.5, 2.5}, R: 0.9, E: [3]float64{17, 0.5, 0}}}},
+			{"capsule through 5 blocks in x across zero", 1, []Part{{Kind: "capsule", C: [3]float64{-8.5, 2.5, 2.5}, R: 0.9, E: [3]float64{23, 0, 0.5}}}},
+			{"capsule through 7 blocks in z", 2, []Part{{Kind: "capsule", C: [3]float64{1.5, 1.5, 1.5}, R: 0.6, E: [3]float64{0, 0.5, 19}}}},
+			{"box over 3x2 blocks", 1, []Part{{Kind: "box", C: [3]float64{9, 6, 3}, Size: [3]float64{13, 5, 2}}}},
+			{"box over 3x3x2 blocks", 1, []Part{{Kind: "box", C: [3]float64{9, 9, 6}, Size: [3]float64{13, 13, 4}}}},
+			{"diagonal capsule", 1, []Part{{Kind: "capsule", C: [3]float64{-3.5, -2.5, 1.5}, R: 0.9, E: [3]float64{14, 13, 9}}}},
+		}
+	}
+	var names []string
+	procs := []int{0, 2, 3, 4, 5}
+	for _, l := range ls {
+		names = append(names, l.name)
+		for _, entry := range []string{"canvas", "canvas-parallel"} {
+			for _, pr := range procs {
+				if entry == "canvas" && pr != 0 {
+					continue
+				}
+				for _, cut := range cutoffs {
+					if !c.Next() {
+						continue
+					}
+					if expired(c) {
+						return
+					}
+					one(c, Case{Via: "marching", Parts: l.parts, Strength: 1, CPU: l.cpu, Cutoff: cut, Entry: entry, Block: B, Procs: pr}, fmt.Sprintf("block%d/many-blocks/%s", B, entry))
+				}
+			}
+		}
+	}
+	c.Bound(bname(B, "many_blocks.shapes"), names)
+	c.Bound(bname(B, "many_blocks.processors_for_MarchParallel"), procs)
+}
+
+var stages = []string{"AddField", "AddFieldParallel", "AddFieldParallel2"}
+
+// runStaged: a canvas that is marched, added to, and marched again. The first sphere sits inside the
+// block at the origin; the second one is placed in the same block, across each of its faces, wholly
+// in a neighbouring block (one the canvas did not hold at the first march) and across 0 / -1.
+func runStaged(c *core.Ctx, B int) {
+	c.Bound(bname(B, "staged.writers_of_the_second_stage"), stages)
+	type cfg struct {
+		cpu, r float64
+		a      [3]float64   // centre of the first sphere (world units)
+		bs     [][3]float64 // centres of the second
+	}
+	var k cfg
+	if B >= 50 {
+		k = cfg{cpu: 1, r: 1.7, a: [3]float64{50.3, 50.2, 50.1}, bs: [][3]float64{
+			{60, 50, 50}, {50, 40.5, 50}, {100.2, 50, 50}, {150, 50, 50}, {100.2, 100.1, 50}, {50, 50, 99.6}, {50, 50, 150},
+			{-0.3, 50, 50}, {-50, 50, 50}, {50, -0.3, -0.4}, {150, 150, 150}}}
+	} else {
+		// block edge 6 cells = 3 units at 2 cubes per unit
+		k = cfg{cpu: 2, r: 0.8, a: [3]float64{1.5, 1.5, 1.5}}
+		for x := -4.5; x <= 7.5; x += 0.25 {
+			for _, y := range []float64{1.5, 3.0, 4.5, -1.5} {
+				for _, z := range []float64{1.5, 3.0} {
+					k.bs = append(k.bs, [3]float64{x, y, z})
+				}
+			}
+		}
+	}
+	n := 0
+	for _, bc := range k.bs {
+		// the two declared domains (the spheres' bounding cubes) at least two cells apart in one axis
+		sep := 0.0
+		for a := 0; a < 3; a++ {
+			sep = math.Max(sep, math.Abs(bc[a]-k.a[a])-2*k.r)
+		}
+		if sep < 2/k.cpu {
+			continue
+		}
+		n++
+		for _, st := range stages {
+			for _, cut := range cutoffs {
+				if !c.Next() {
+					continue
+				}
+				if expired(c) {
+					return
+				}
+				parts := []Part{{Kind: "sphere", C: k.a, R: k.r}, {Kind: "sphere", C: bc, R: k.r}}
+				one(c, Case{Via: "marching", Parts: parts, Strength: 1, CPU: k.cpu, Cutoff: cut, Entry: "canvas", Block: B, Stage: st}, fmt.Sprintf("block%d/staged/%s", B, st))
+			}
+		}
+	}
+	c.Bound(bname(B, "staged.second_sphere_centres"), n)
+}
+
 // expired polls the harness deadline; core only looks at the clock every 256th poll, and one
 // march can take seconds, so poll in bursts.
 func expired(c *core.Ctx) bool {
@@ -426,14 +535,41 @@ func site(cs Case) string {
 	if cs.Entry == "field" {
 		return "marching.Field.March"
 	}
+	if cs.Entry == "canvas-parallel" {
+		return "marching.MarchingCanvas.MarchParallel"
+	}
 	return "marching.MarchingCanvas.March"
 }
 
-func march(cs Case, f marching.Field) modeling.Mesh {
+func march(cs Case, b builtField) modeling.Mesh {
+	f := b.field
 	if cs.Entry == "field" {
 		return f.March(modeling.PositionAttribute, cs.CPU, cs.Cutoff)
 	}
 	cv := marching.NewMarchingCanvas(cs.CPU)
+	if cs.Procs > 0 {
+		defer runtime.GOMAXPROCS(runtime.GOMAXPROCS(cs.Procs))
+	}
+	if cs.Entry == "canvas-parallel" {
+		cv.AddField(f)
+		return cv.MarchParallel(cs.Cutoff)
+	}
+	if cs.Stage != "" {
+		cv.AddField(b.parts[0])
+		cv.March(cs.Cutoff) // a preview of the canvas so far
+		rest := marching.CombineFields(b.parts[1:]...)
+		switch cs.Stage {
+		case "AddField":
+			cv.AddField(rest)
+		case "AddFieldParallel":
+			cv.AddFieldParallel(rest)
+		case "AddFieldParallel2":
+			cv.AddFieldParallel2(rest)
+		default:
+			panic("c09: unknown stage " + cs.Stage)
+		}
+		return cv.March(cs.Cutoff)
+	}
 	heat := func(v vector3.Float64) float64 { return 0.37 + 0.11*v.X() - 0.05*v.Y()*v.Z() }
 	other := marching.Field{Domain: f.Domain, Float1Functions: map[string]sample.Vec3ToFloat{"Heat": heat}}
 	switch cs.Extra {
@@ -471,7 +607,7 @@ func one(c *core.Ctx, cs Case, scope string) {
 	}
 	lat := sampleLattice(cs)
 	var m modeling.Mesh
-	o := core.Guard(func() { m = march(cs, b.field) })
+	o := core.Guard(func() { m = march(cs, b) })
 	c.Sample(scope, cs)
 	violate := func(site, clause, class, detail string) {
 		if !alarmed {
@@ -559,11 +695,14 @@ func translate(cs Case, to int) Case {
 		return cs
 	}
 	for a := 0; a < 3; a++ {
-		o := cs.Parts[0].C[a] * cs.CPU
-		k := math.Round(o / float64(cs.Block))
-		shift := k * float64(to-cs.Block) / cs.CPU
 		for i := range out.Parts {
-			out.Parts[i].C[a] += shift
+			j := 0
+			if cs.Stage != "" {
+				j = i // staged parts sit in blocks of their own: each keeps its place relative to its nearest block corner
+			}
+			o := cs.Parts[j].C[a] * cs.CPU
+			k := math.Round(o / float64(cs.Block))
+			out.Parts[i].C[a] += k * float64(to-cs.Block) / cs.CPU
 		}
 	}
 	out.Block = to
